@@ -19,8 +19,9 @@ import (
 // Slots (by shape, package api): in a loop body (or function body) that contains a call compiling
 // a sub-expression between them, the if statements without else whose bodies emit instructions
 // (a call of a method named Append, directly or inside a loop) and whose conditions mention one
-// common selector path. Obligation per group: all conditions are the same expression (operands
-// compared structurally with identifiers resolved).
+// common selector path, and the loops that emit at the level of the block itself (under no
+// condition). Obligation per group: all conditions are the same expression (operands compared
+// structurally with identifiers resolved); a loop under no condition agrees with no if.
 func init() {
 	register(&Rule{
 		Name:  "EMIT-GUARDS",
@@ -73,41 +74,72 @@ func runEmitGuards(c *Ctx) []Obligation {
 			if !ok {
 				return true
 			}
-			var ifs []*ast.IfStmt
+			// members: the conditional emitters of the block — if statements without else whose body
+			// emits, and loops that emit at the level of the block itself (guard: none)
+			type member struct {
+				cond ast.Expr // nil for a loop that is not under an if
+				pos  token.Pos
+			}
+			var ms []member
+			nIfs := 0
 			for _, st := range blk.List {
-				if is, ok := st.(*ast.IfStmt); ok && is.Else == nil && is.Init == nil && emits(is.Body) {
-					ifs = append(ifs, is)
-				}
-			}
-			if len(ifs) < 2 {
-				return true
-			}
-			// a common field selector
-			common := selectors(ifs[0].Cond)
-			for _, is := range ifs[1:] {
-				s := selectors(is.Cond)
-				for k := range common {
-					if !s[k] {
-						delete(common, k)
+				switch x := st.(type) {
+				case *ast.IfStmt:
+					if x.Else == nil && x.Init == nil && emits(x.Body) {
+						ms = append(ms, member{x.Cond, x.Pos()})
+						nIfs++
+					}
+				case *ast.ForStmt:
+					if emits(x.Body) {
+						ms = append(ms, member{nil, x.Pos()})
+					}
+				case *ast.RangeStmt:
+					if emits(x.Body) {
+						ms = append(ms, member{nil, x.Pos()})
 					}
 				}
 			}
-			if len(common) == 0 {
+			if len(ms) < 2 || nIfs == 0 {
 				return true
 			}
+			if nIfs == len(ms) {
+				// a common field selector
+				common := selectors(ms[0].cond)
+				for _, m := range ms[1:] {
+					s := selectors(m.cond)
+					for k := range common {
+						if !s[k] {
+							delete(common, k)
+						}
+					}
+				}
+				if len(common) == 0 {
+					return true
+				}
+			}
 			ord++
-			ob := Obligation{Key: fmt.Sprintf("%s#%d", name, ord), Pos: c.Position(ifs[0].Pos()), Status: OK}
+			ob := Obligation{Key: fmt.Sprintf("%s#%d", name, ord), Pos: c.Position(ms[0].pos), Status: OK}
+			text := func(m member) string {
+				if m.cond == nil {
+					return "a loop under no condition"
+				}
+				return "`" + nodeText(c.Fset, m.cond) + "`"
+			}
 			var diffs []string
-			for _, is := range ifs[1:] {
-				if !sameExpr(info, ast.Unparen(ifs[0].Cond), ast.Unparen(is.Cond)) {
-					diffs = append(diffs, fmt.Sprintf("`%s` at %s vs `%s` at %s", nodeText(c.Fset, ifs[0].Cond), c.Position(ifs[0].Pos()), nodeText(c.Fset, is.Cond), c.Position(is.Pos())))
+			for _, m := range ms[1:] {
+				same := (ms[0].cond == nil) == (m.cond == nil)
+				if same && m.cond != nil {
+					same = sameExpr(info, ast.Unparen(ms[0].cond), ast.Unparen(m.cond))
+				}
+				if !same {
+					diffs = append(diffs, fmt.Sprintf("%s at %s vs %s at %s", text(ms[0]), c.Position(ms[0].pos), text(m), c.Position(m.pos)))
 				}
 			}
 			if len(diffs) > 0 {
 				ob.Status = Violation
 				ob.Detail = fmt.Sprintf("%s emits bracketing instructions under different conditions: %s — for the targets only one of the two tests admits, the VM's stack is left unbalanced", name, strings.Join(diffs, "; "))
 			} else {
-				ob.Detail = fmt.Sprintf("%d emitting if statements in one block, all guarded by `%s`", len(ifs), nodeText(c.Fset, ifs[0].Cond))
+				ob.Detail = fmt.Sprintf("%d conditional emitters in one block, all guarded by %s", len(ms), text(ms[0]))
 			}
 			out = append(out, ob)
 			return true
